@@ -43,8 +43,8 @@ type fdState struct {
 // Ledger of one execution.
 type Ledger struct {
 	Events     []Event
-	fds        map[int]*fdState
-	Violations []string // descriptor-ownership violations found so far (C07 oracle)
+	fds        []*fdState // indexed by descriptor number (a slice, not a map: map operations are race-instrumented inside the runtime even when called from //go:norace code)
+	Violations []string   // descriptor-ownership violations found so far (C07 oracle)
 	Sigs       []string
 	gen        int
 	seq        int
@@ -54,17 +54,37 @@ type Ledger struct {
 
 var L *Ledger
 
+const maxFd = 8192
+
+//go:norace
+func (l *Ledger) get(fd int) *fdState {
+	if l == nil || fd < 0 || fd >= len(l.fds) {
+		return nil
+	}
+	return l.fds[fd]
+}
+
+//go:norace
+func (l *Ledger) set(fd int, st *fdState) {
+	if l != nil && fd >= 0 && fd < len(l.fds) {
+		l.fds[fd] = st
+	}
+}
+
 // Deviate is the fault/deviation policy of the current scenario: for a call site it returns the
 // alternative answers to offer (besides the default "call the kernel unchanged").
 var Deviate func(site string, fd int, n int) []string
 
 // Reset starts a new ledger (called by the harness at the start of every execution).
+//
+//go:norace
 func Reset() *Ledger {
-	L = &Ledger{fds: map[int]*fdState{}}
+	L = &Ledger{fds: make([]*fdState, maxFd)}
 	Deviate = nil
 	return L
 }
 
+//go:norace
 func errStr(err error) string {
 	if err == nil {
 		return ""
@@ -75,6 +95,7 @@ func errStr(err error) string {
 	return err.Error()
 }
 
+//go:norace
 func (l *Ledger) log(op string, fd, arg, n int, err error, who, inject string) {
 	if l == nil {
 		return
@@ -83,6 +104,7 @@ func (l *Ledger) log(op string, fd, arg, n int, err error, who, inject string) {
 	l.Events = append(l.Events, Event{Seq: l.seq, Thread: sched.CurrentThread(), Op: op, Fd: fd, Arg: arg, N: n, Err: errStr(err), Who: who, Inject: inject})
 }
 
+//go:norace
 func (l *Ledger) violate(sig, format string, a ...interface{}) {
 	if l == nil {
 		return
@@ -91,26 +113,29 @@ func (l *Ledger) violate(sig, format string, a ...interface{}) {
 	l.Sigs = append(l.Sigs, sig)
 }
 
+//go:norace
 func (l *Ledger) created(fd int, who, kind string) {
 	if l == nil || fd < 0 {
 		return
 	}
-	if st, ok := l.fds[fd]; ok && st.owner != "" {
+	if st := l.get(fd); st != nil && st.owner != "" {
 		l.violate("fd:dupnumber", "kernel handed out fd %d (%s) while the ledger believes it is open (%s, %s): a close was missed", fd, kind, st.owner, st.kind)
 	}
 	l.gen++
-	l.fds[fd] = &fdState{owner: who, kind: kind, gen: l.gen}
+	l.set(fd, &fdState{owner: who, kind: kind, gen: l.gen})
 	if who == "fw" {
 		l.Created++
 	}
 }
 
 // use records a framework system call on fd and checks that the framework owns it.
+//
+//go:norace
 func (l *Ledger) use(op string, fd int) {
 	if l == nil {
 		return
 	}
-	st := l.fds[fd]
+	st := l.get(fd)
 	switch {
 	case st == nil:
 		// never seen: e.g. stdin/out or an fd created outside the shim; ignore
@@ -121,11 +146,12 @@ func (l *Ledger) use(op string, fd int) {
 	}
 }
 
+//go:norace
 func (l *Ledger) closed(fd int, who string, err error) {
 	if l == nil {
 		return
 	}
-	st := l.fds[fd]
+	st := l.get(fd)
 	if who == "fw" {
 		switch {
 		case st == nil:
@@ -148,53 +174,61 @@ func (l *Ledger) closed(fd int, who string, err error) {
 }
 
 // Transfer hands a framework-created descriptor to the application (Dup, DupListener results).
+//
+//go:norace
 func Transfer(fd int, kind string) {
 	if L == nil {
 		return
 	}
-	if st := L.fds[fd]; st != nil {
+	if st := L.get(fd); st != nil {
 		if st.owner == "fw" {
 			L.Created--
 		}
 		st.owner = "user"
 		st.kind = kind
 	} else {
-		L.fds[fd] = &fdState{owner: "user", kind: kind}
+		L.set(fd, &fdState{owner: "user", kind: kind})
 	}
 }
 
 // Adopt marks a descriptor created outside the shim (e.g. by package net) as framework-owned
 // or user-owned.
+//
+//go:norace
 func Adopt(fd int, who, kind string) {
 	if L == nil {
 		return
 	}
 	L.gen++
-	L.fds[fd] = &fdState{owner: who, kind: kind, gen: L.gen}
+	L.set(fd, &fdState{owner: who, kind: kind, gen: L.gen})
 	if who == "fw" {
 		L.Created++
 	}
 }
 
 // Owner returns the ledger's owner of fd ("fw", "user", "" closed, "?" unknown).
+//
+//go:norace
 func Owner(fd int) string {
 	if L == nil {
 		return "?"
 	}
-	if st := L.fds[fd]; st != nil {
+	if st := L.get(fd); st != nil {
 		return st.owner
 	}
 	return "?"
 }
 
 // OpenFrameworkFds lists the descriptors the framework created and has not closed.
+//
+//go:norace
 func OpenFrameworkFds() []string {
 	var out []string
 	if L == nil {
 		return out
 	}
-	for fd := 0; fd < 4096; fd++ {
-		if st := L.fds[fd]; st != nil && st.owner == "fw" {
+	for fd := 0; fd < maxFd; fd++ {
+		if st := L.get(fd); st != nil && st.owner == "fw" {
 			out = append(out, fmt.Sprintf("%d(%s)", fd, st.kind))
 		}
 	}
@@ -202,12 +236,14 @@ func OpenFrameworkFds() []string {
 }
 
 // CloseAllOpen really closes every descriptor the ledger still lists as open (end of execution).
+//
+//go:norace
 func CloseAllOpen() {
 	if L == nil {
 		return
 	}
 	for fd, st := range L.fds {
-		if st.owner != "" {
+		if st != nil && st.owner != "" {
 			_ = real.Close(fd)
 			st.owner = ""
 		}
@@ -217,6 +253,7 @@ func CloseAllOpen() {
 // ---------------------------------------------------------------------------------------------
 // deviations
 
+//go:norace
 func deviation(site string, fd, n int) string {
 	if Deviate == nil || !sched.Active() {
 		return ""
@@ -242,6 +279,7 @@ var errnoByName = map[string]real.Errno{
 	"EMFILE": real.EMFILE, "ENOBUFS": real.ENOBUFS, "EPERM": real.EPERM, "EIO": real.EIO,
 }
 
+//go:norace
 func shorten(dev string, n int) int {
 	switch dev {
 	case "short1":
@@ -263,6 +301,7 @@ func shorten(dev string, n int) int {
 // ---------------------------------------------------------------------------------------------
 // intercepted calls (framework side)
 
+//go:norace
 func Read(fd int, p []byte) (n int, err error) {
 	if !sched.Active() {
 		return real.Read(fd, p)
@@ -283,6 +322,7 @@ func Read(fd int, p []byte) (n int, err error) {
 	return
 }
 
+//go:norace
 func Write(fd int, p []byte) (n int, err error) {
 	if !sched.Active() {
 		return real.Write(fd, p)
@@ -303,6 +343,7 @@ func Write(fd int, p []byte) (n int, err error) {
 	return
 }
 
+//go:norace
 func Writev(fd int, iovs [][]byte) (n int, err error) {
 	if !sched.Active() {
 		return real.Writev(fd, iovs)
@@ -341,6 +382,7 @@ func Writev(fd int, iovs [][]byte) (n int, err error) {
 	return
 }
 
+//go:norace
 func Readv(fd int, iovs [][]byte) (n int, err error) {
 	if !sched.Active() {
 		return real.Readv(fd, iovs)
@@ -352,6 +394,7 @@ func Readv(fd int, iovs [][]byte) (n int, err error) {
 	return
 }
 
+//go:norace
 func Recvfrom(fd int, p []byte, flags int) (n int, from real.Sockaddr, err error) {
 	if !sched.Active() {
 		return real.Recvfrom(fd, p, flags)
@@ -368,6 +411,7 @@ func Recvfrom(fd int, p []byte, flags int) (n int, from real.Sockaddr, err error
 	return
 }
 
+//go:norace
 func Sendto(fd int, p []byte, flags int, to real.Sockaddr) (err error) {
 	if !sched.Active() {
 		return real.Sendto(fd, p, flags, to)
@@ -384,6 +428,7 @@ func Sendto(fd int, p []byte, flags int, to real.Sockaddr) (err error) {
 	return
 }
 
+//go:norace
 func Send(fd int, p []byte, flags int) (err error) {
 	if !sched.Active() {
 		return real.Send(fd, p, flags)
@@ -400,6 +445,7 @@ func Send(fd int, p []byte, flags int) (err error) {
 	return
 }
 
+//go:norace
 func Accept4(fd int, flags int) (nfd int, sa real.Sockaddr, err error) {
 	if !sched.Active() {
 		return real.Accept4(fd, flags)
@@ -419,6 +465,7 @@ func Accept4(fd int, flags int) (nfd int, sa real.Sockaddr, err error) {
 	return
 }
 
+//go:norace
 func Accept(fd int) (nfd int, sa real.Sockaddr, err error) {
 	if !sched.Active() {
 		return real.Accept(fd)
@@ -433,6 +480,7 @@ func Accept(fd int) (nfd int, sa real.Sockaddr, err error) {
 	return
 }
 
+//go:norace
 func Close(fd int) (err error) {
 	if !sched.Active() {
 		return real.Close(fd)
@@ -448,6 +496,7 @@ func Close(fd int) (err error) {
 	return
 }
 
+//go:norace
 func Socket(domain, typ, proto int) (fd int, err error) {
 	if !sched.Active() {
 		return real.Socket(domain, typ, proto)
@@ -461,6 +510,7 @@ func Socket(domain, typ, proto int) (fd int, err error) {
 	return
 }
 
+//go:norace
 func Bind(fd int, sa real.Sockaddr) (err error) {
 	if !sched.Active() {
 		return real.Bind(fd, sa)
@@ -472,6 +522,7 @@ func Bind(fd int, sa real.Sockaddr) (err error) {
 	return
 }
 
+//go:norace
 func Listen(fd int, n int) (err error) {
 	if !sched.Active() {
 		return real.Listen(fd, n)
@@ -483,6 +534,7 @@ func Listen(fd int, n int) (err error) {
 	return
 }
 
+//go:norace
 func Connect(fd int, sa real.Sockaddr) (err error) {
 	if !sched.Active() {
 		return real.Connect(fd, sa)
@@ -494,6 +546,7 @@ func Connect(fd int, sa real.Sockaddr) (err error) {
 	return
 }
 
+//go:norace
 func EpollCreate1(flag int) (fd int, err error) {
 	if !sched.Active() {
 		return real.EpollCreate1(flag)
@@ -507,6 +560,7 @@ func EpollCreate1(flag int) (fd int, err error) {
 	return
 }
 
+//go:norace
 func Eventfd(initval uint, flags int) (fd int, err error) {
 	if !sched.Active() {
 		return real.Eventfd(initval, flags)
@@ -522,6 +576,7 @@ func Eventfd(initval uint, flags int) (fd int, err error) {
 
 var epollOpName = map[int]string{real.EPOLL_CTL_ADD: "epoll_ctl_add", real.EPOLL_CTL_MOD: "epoll_ctl_mod", real.EPOLL_CTL_DEL: "epoll_ctl_del"}
 
+//go:norace
 func EpollCtl(epfd int, op int, fd int, event *real.EpollEvent) (err error) {
 	if !sched.Active() {
 		return real.EpollCtl(epfd, op, fd, event)
@@ -546,6 +601,8 @@ func EpollCtl(epfd int, op int, fd int, event *real.EpollEvent) (err error) {
 
 // EpollReadable reports (without consuming anything) whether epoll_wait on epfd would return
 // at least one event: poll(2) on the epoll descriptor itself.
+//
+//go:norace
 func EpollReadable(epfd int) bool {
 	pfd := []real.PollFd{{Fd: int32(epfd), Events: real.POLLIN}}
 	for {
@@ -558,6 +615,8 @@ func EpollReadable(epfd int) bool {
 }
 
 // FdReadable reports whether fd is readable (or at EOF / in error) right now.
+//
+//go:norace
 func FdReadable(fd int) bool {
 	pfd := []real.PollFd{{Fd: int32(fd), Events: real.POLLIN}}
 	for {
@@ -569,6 +628,7 @@ func FdReadable(fd int) bool {
 	}
 }
 
+//go:norace
 func EpollWait(epfd int, events []real.EpollEvent, msec int) (n int, err error) {
 	if !sched.Active() {
 		return real.EpollWait(epfd, events, msec)
@@ -588,6 +648,7 @@ func EpollWait(epfd int, events []real.EpollEvent, msec int) (n int, err error) 
 	return
 }
 
+//go:norace
 func FcntlInt(fd uintptr, cmd, arg int) (r int, err error) {
 	if !sched.Active() {
 		return real.FcntlInt(fd, cmd, arg)
@@ -602,6 +663,7 @@ func FcntlInt(fd uintptr, cmd, arg int) (r int, err error) {
 	return
 }
 
+//go:norace
 func Dup(fd int) (nfd int, err error) {
 	if !sched.Active() {
 		return real.Dup(fd)
@@ -617,14 +679,18 @@ func Dup(fd int) (nfd int, err error) {
 }
 
 // Syscall6 / RawSyscall6 are used by the poll_opt poller for epoll_wait / epoll_ctl.
+//
+//go:norace
 func Syscall6(trap, a1, a2, a3, a4, a5, a6 uintptr) (r1, r2 uintptr, err real.Errno) {
 	return rawsys(false, trap, a1, a2, a3, a4, a5, a6)
 }
 
+//go:norace
 func RawSyscall6(trap, a1, a2, a3, a4, a5, a6 uintptr) (r1, r2 uintptr, err real.Errno) {
 	return rawsys(true, trap, a1, a2, a3, a4, a5, a6)
 }
 
+//go:norace
 func rawsys(raw bool, trap, a1, a2, a3, a4, a5, a6 uintptr) (r1, r2 uintptr, err real.Errno) {
 	if !sched.Active() {
 		if raw {
@@ -679,21 +745,25 @@ func rawsys(raw bool, trap, a1, a2, a3, a4, a5, a6 uintptr) (r1, r2 uintptr, err
 }
 
 // Forget marks fd as closed by its owner outside the shim (harness closes with raw close(2)).
+//
+//go:norace
 func Forget(fd int) {
 	if L == nil {
 		return
 	}
-	if st := L.fds[fd]; st != nil {
+	if st := L.get(fd); st != nil {
 		st.owner = ""
 	}
 }
 
 // KindOf returns what the ledger knows about fd ("accepted", "dup", "epoll", ...).
+//
+//go:norace
 func KindOf(fd int) string {
 	if L == nil {
 		return ""
 	}
-	if st := L.fds[fd]; st != nil && st.owner != "" {
+	if st := L.get(fd); st != nil && st.owner != "" {
 		return st.kind
 	}
 	return ""
